@@ -19,8 +19,9 @@ VARIABLES l,            \* index of the next line to consume
           ever,         \* <<bucket, key, value>> of every put committed so far in this history
           pend,         \* the same for the puts of the transaction in progress
           div,          \* at the last Close the process and the log disagreed (only a recorded deviation can cause that)
-          merged        \* a Merge returned nil in this history
-tvars == <<vars, l, noteLines, rt, hinfo, ever, pend, div, merged>>
+          merged,       \* a Merge ran in this history (to the end, or until it failed half-way)
+          gone          \* <<bucket, key>> whose last committed write is a delete or carries a TTL
+tvars == <<vars, l, noteLines, rt, hinfo, ever, pend, div, merged, gone>>
 
 Ev == TLog[l]
 \* a call that panicked is recorded with a "panic" field: no action admits it (C20)
@@ -33,7 +34,9 @@ Ev == TLog[l]
 \* Known finding F-C15-8: Merge drops every record of a list / set / sorted
 \* set that has become empty, so after a reopen the structure's bucket no
 \* longer exists and a read answers with an error where it answered
-\* "empty" (0, no members) before Close.
+\* "empty" (0, no members) before Close.  A Merge that fails half-way has
+\* dropped the records of the files it had treated by then, with the same
+\* effect.
 F_MergeEmpty == "F-C15-8"
 AltSame == \A j \in 1..Len(Ev.alt) : Ev.alt[j] = Ev.alt[1]
 StructEmpty(a) ==
@@ -59,7 +62,7 @@ ObsOf(o) ==
                            <<o.zs[i].nodes[j].k, o.zs[i].nodes[j].s, o.zs[i].nodes[j].v>>]>> :
              i \in {j \in 1..Len(o.zs) : o.zs[j].nodes # <<>>}}]
 
-TraceInit == Init /\ l = 1 /\ noteLines = {} /\ rt = 0 /\ hinfo = [op |-> "reset"] /\ ever = {} /\ pend = {} /\ div = FALSE /\ merged = FALSE /\ TLCSet(1, 1)
+TraceInit == Init /\ l = 1 /\ noteLines = {} /\ rt = 0 /\ hinfo = [op |-> "reset"] /\ ever = {} /\ pend = {} /\ div = FALSE /\ merged = FALSE /\ gone = {} /\ TLCSet(1, 1)
 
 \* C14, real-time clause: a linearised concurrent history lists the
 \* transactions in lock-acquisition order; that order must extend real-time
@@ -130,11 +133,11 @@ MergeRan == "merger" \in DOMAIN hinfo /\ hinfo.merger
 OnceCommitted(b, k, v) == <<b, k, v>> \in ever
 \* ... and what it cannot explain: Merge rewrites live values only, so the
 \* finding brings superseded *values* back, it never makes a key disappear.  A
-\* key that was put (without TTL) and never deleted since the start of the
-\* history must be found; `ever` carries the marker Gone for every key that a
-\* committed transaction deleted or wrote with a TTL.
+\* key whose last committed write (in lock order) is a put without TTL must be
+\* found; `gone` holds the keys whose last committed write is a delete or
+\* carries a TTL (a transaction that does both to a key counts as a delete).
 Gone == "<deleted>"
-MustExist(b, k) == (\E t \in ever : t[1] = b /\ t[2] = k) /\ ~OnceCommitted(b, k, Gone)
+MustExist(b, k) == (\E t \in ever : t[1] = b /\ t[2] = k) /\ <<b, k>> \notin gone
 \* Known finding F-C17-3: in HintKeyAndRAMIdxMode a reader fetches values from
 \* the data files; Merge removes a file under it (it holds no lock), the
 \* reader re-creates it empty and returns a nil entry in its place.
@@ -160,7 +163,10 @@ HasNil(a) ==
   CASE a.op = "get" -> ~a.err /\ a.v = "<nil entry>"
     [] a.op \in {"getall", "range", "pscan", "psscan"} -> ~a.err /\ \E i \in 1..Len(a.res) : IsNilEntry(a.res[i])
     [] OTHER -> FALSE
-WeakObsOK(o) == \A i \in 1..Len(o.kv) : OnceCommitted(o.kv[i].b, o.kv[i].k, o.kv[i].v)
+WeakObsOK(o) ==
+  /\ \A i \in 1..Len(o.kv) : OnceCommitted(o.kv[i].b, o.kv[i].k, o.kv[i].v)
+  /\ (\A i \in 1..Len(o.kv) : o.kv[i].v # "<nil entry>") =>
+        \A t \in ever : MustExist(t[1], t[2]) => \E i \in 1..Len(o.kv) : o.kv[i].b = t[1] /\ o.kv[i].k = t[2]
 TrMergeRace ==
   /\ MergeRan /\ F_MergeRace \in Dev /\ status # "lost"
   /\ \/ Is(Reads) /\ ~IsFin /\ tx.st \in {"rw", "ro"} /\ ~ReadOK(Ev, tx.view, Dev) /\ WeakReadOK(Ev)
@@ -240,7 +246,13 @@ TraceNext ==
      \/ TrClose \/ TrOpen \/ TrMerge \/ TrObs \/ TrCopyObs \/ TrCrash \/ TrCrashOpen \/ TrLost \/ TrMergeRace
   /\ noteLines' = (IF notes' = notes THEN noteLines ELSE noteLines \cup {<<l, notes' \ notes>>})
                    \cup (IF "cmp" \in DOMAIN Ev /\ ~AltSame /\ ~div THEN {<<l, {F_MergeEmpty}>>} ELSE {})
-  /\ merged' = IF Ev.op = "reset" THEN FALSE ELSE IF Ev.op = "merge" /\ ~Ev.err THEN TRUE ELSE merged
+  /\ merged' = IF Ev.op = "reset" THEN FALSE ELSE IF Ev.op = "merge" THEN TRUE ELSE merged
+  /\ gone' = IF Ev.op = "reset" THEN {}
+             ELSE IF Ev.op = "commit" /\ ~Ev.err /\ ~IsFin
+                  THEN LET dels == {<<t[1], t[2]>> : t \in {x \in pend : x[3] = Gone}}
+                           puts == {<<t[1], t[2]>> : t \in {x \in pend : x[3] # Gone}}
+                       IN (gone \ puts) \cup dels
+             ELSE gone
   /\ RealTimeOK /\ rt' = NextRt
   /\ hinfo' = IF Ev.op = "reset" THEN Ev ELSE hinfo
   /\ div' = IF Ev.op = "reset" THEN FALSE
